@@ -70,6 +70,16 @@ func (e *UnsupportedValueError) Error() string {
 	return "json: unsupported value: " + e.Str
 }
 
+// An UnsupportedTypeError is returned by Marshal when attempting
+// to encode an object which has no JSON representation.
+type UnsupportedTypeError struct {
+	Object ugo.Object
+}
+
+func (e *UnsupportedTypeError) Error() string {
+	return "json: unsupported type: " + e.Object.TypeName()
+}
+
 // A MarshalerError represents an error from calling a MarshalJSON or MarshalText method.
 type MarshalerError struct {
 	Object     ugo.Object
@@ -151,6 +161,8 @@ type encoderFunc func(e *encodeState, v ugo.Object, opts encOpts)
 // objectEncoder constructs an encoderFunc for a ugo.Object.
 func objectEncoder(v ugo.Object) encoderFunc {
 	switch v.(type) {
+	case nil:
+		return invalidValueEncoder
 	case ugo.Bool:
 		return boolEncoder
 	case ugo.Int:
@@ -180,7 +192,7 @@ func objectEncoder(v ugo.Object) encoderFunc {
 	case Marshaler:
 		return marshalerEncoder
 	default:
-		return noopEncoder
+		return unsupportedTypeEncoder
 	}
 }
 
@@ -188,7 +200,15 @@ func invalidValueEncoder(e *encodeState, _ ugo.Object, _ encOpts) {
 	e.WriteString("null")
 }
 
-func noopEncoder(_ *encodeState, _ ugo.Object, _ encOpts) {}
+// unsupportedTypeEncoder aborts the encoding: writing nothing for a value
+// would leave a malformed document behind (e.g. {"a":,"b":1}).
+// Only an error value that is the whole document is still ignored.
+func unsupportedTypeEncoder(e *encodeState, v ugo.Object, _ encOpts) {
+	if _, ok := v.(*ugo.Error); ok && e.Len() == 0 {
+		return
+	}
+	e.error(&UnsupportedTypeError{v})
+}
 
 func optionsEncoder(e *encodeState, v ugo.Object, opts encOpts) {
 	opts.quoted = v.(*EncoderOptions).Quote
